@@ -116,6 +116,9 @@ pub open spec fn signature_at(t0: Tokens, given: Location, name: Identifier, par
 	&&& lod == given && name.location == first_loc(t0)
 	&&& forall|i: int| 0 <= i < parameters@.len() ==> parameter_in(t0, #[trigger] parameters@[i])
 	&&& forward(lort) && first_loc(t0).span.start <= lort.span.start && lort.span.end <= end_loc(t0).span.end
+	// ... and it starts at a token BEHIND the name and the opening parenthesis (the first token of the written type, or the closing
+	// parenthesis where none is written), reporting that token's line: the name or the keyword cannot stand in for it
+	&&& exists|k: int| 2 <= k < t0.tokens@.len() && lort.span.start == (#[trigger] t0.tokens@[k]).location.span.start && same_line(lort, t0.tokens@[k].location)
 }
 // a function (head): located by its keyword alone, named by its first token, parameters and return type inside the text (where no return
 // type is written the code takes the closing parenthesis: only `inside the text` is stated); a body that failed carries an error located in the lexed text
@@ -139,6 +142,7 @@ pub proof fn lemma_parameters_of_a_suffix(t0: Tokens, t1: Tokens, ps: Seq<Parame
 pub proof fn lemma_return_type_inside(t0: Tokens, t2: Tokens, t3: Tokens, l: Location)
 	requires stream_wf(t0), stream_wf(t2), stream_wf(t3), took(t0, t2, 1), took(t2, t3, 1), return_type_at(t2, t3, l),
 	ensures first_loc(t0).span.start <= l.span.start && l.span.end <= end_loc(t0).span.end,
+		exists|k: int| taken(t0, t2) + 1 <= k < t0.tokens@.len() && l.span.start == (#[trigger] t0.tokens@[k]).location.span.start && same_line(l, t0.tokens@[k].location),
 {
 	let k = choose|k: int| 1 <= k < taken(t2, t3) && l.span.start == (#[trigger] t2.tokens@[k]).location.span.start && same_line(l, t2.tokens@[k].location);
 	let d = taken(t0, t2);
